@@ -146,7 +146,8 @@ def to_xml_files(S, tree, main="in.xml", inc="inc%d.xml"):
 # ------------------------------------------------------------------ TLA+ --
 
 def tla_str(s):
-    return '"' + str(s).replace("\\", "\\\\").replace('"', '\\"') + '"'
+    return '"' + (str(s).replace("\\", "\\\\").replace('"', '\\"')
+                  .replace("\n", "\\n").replace("\r", "\\r").replace("\t", "\\t")) + '"'
 
 
 def tla(v):
